@@ -1469,6 +1469,11 @@ func (ro *RedisOutput) bisyncStartPoint(ctx context.Context, runIDs []string) (S
 		return sp, 0, false, nil
 	}
 	rootStartPoint := StartPoint{DbId: dbID, RunId: cpi.RunId, Offset: cpi.Offset}
+	// GetCheckpoint leaves the connection in whichever database it scanned last : the recovery
+	// state read below lives where the senders write it, in database 0
+	if err := redispkg.SelectDB(cli, 0); err != nil {
+		return sp, 0, false, err
+	}
 
 	slots := ro.bisyncRecoverySlots()
 	if ro.cfg.ReplayMode.UsesFrontier() {
